@@ -239,7 +239,7 @@ def run(tier, seed, replay=None):
             xq = (solverkit.rand_ttm_float(rng_q, Nq, Nq, solverkit.ranks(rng_q, d_, 2), dt_, cplx=cplx_) if op_
                   else solverkit.rand_tt_float(rng_q, Nq, solverkit.ranks(rng_q, d_, 3), dt_, cplx=cplx_))
             snap_q = history.Snap(xq)
-            q_ = xq.to_qtt(1e-13, mode_size=ms)
+            q_ = [lambda: xq.to_qtt(1e-13, mode_size=ms), lambda: xq.to_qtt(1e-13, ms), lambda: xq.to_qtt(1e-13, ms, 1000), lambda: xq.to_qtt(eps=1e-13, rmax=1000, mode_size=ms)][j % 4]()   # keyword and positional forms of the documented signature (eps, mode_size, rmax)
             K = int(round(math.log(int(np.prod(Nq)), ms)))
             want_modes = [ms] * K
             if (history.Mof(q_) if op_ else []) + [int(v) for v in q_.N] != (want_modes if op_ else []) + want_modes or bool(q_.is_ttm) != op_:
